@@ -1134,7 +1134,7 @@ def gen_malformed(rng, n):
             req = order[i]
         else:
             # a valid request with one character of its oracle / ops damaged
-            req = rng.choice(['wfile l wK*3,sI a:0102,f,a:@1~100,s,c', 'wfilefile d5 1 wK,sK 4142', 'wcurrent 5 1 sE,uE'])
+            req = rng.choice(['wfile l wK*3,sI a:0102,f,a:0a0b0c0d0e0f1011,s,c', 'wfilefile d5 1 wK,sK 4142', 'wcurrent 5 1 sE,uE'])
             f = req.split(' ')
             fi = rng.range(1, len(f) - 1)
             s = f[fi]
